@@ -15,7 +15,7 @@
  *     Obligation: refused by the printer, or the reader yields exactly one value, of the same type, interned from the same text.
  * JANET_NO_NANBOX configuration; janet_symbol is a recording stub (symbol cache: C01/C03 units).
  *
- * FINDING (classes 3-6 fail on the pinned tree; reproduced on /repo/_build/janet):
+ * FINDING (classes 3-6 FAILED on the pinned tree, reproduced on /repo/_build/janet; repaired in /repo d944b13 - the units pass now):
  *   (each s ["nil" "true" "false" "-1" "+1" ".5" "-0x10" "-2r1" "-1_" ":a" ""]
  *     (def sym (symbol s)) (def txt (string/format "%j" sym)) (def back (protect (parse txt)))
  *     (printf "%q -> %q -> %q %s" s txt back (if (and (back 0) (= (back 1) sym)) "ok" "MISMATCH")))
@@ -33,6 +33,12 @@ void ps_push_u8_stub(JanetBuffer *b, uint8_t c) { __CPROVER_assert(s_n < 12, "gh
 void ps_push_bytes_stub(JanetBuffer *b, const uint8_t *bytes, int32_t len) { __CPROVER_assert(len >= 0 && s_n + len <= 12, "ghost capacity"); for (int i = 0; i < 8; i++) if (i < len) s_out[s_n++] = bytes[i]; }
 int s_desc_calls; JanetType s_desc_type; const void *s_desc_ptr;
 void ps_description_stub(JanetBuffer *b, Janet x) { s_desc_calls++; s_desc_type = x.type; s_desc_ptr = x.as.pointer; }
+/* the number scanner, in the alphabet unit only (the round-trip units use the real strtod.c): any verdict; it may only be asked
+ * about text that starts with a sign or a dot (text starting with a digit is refused before, other text cannot be a number) */
+int ps_scan_numeric_alpha_stub(const uint8_t *str, int32_t len, Janet *out) {
+  __CPROVER_assert(len >= 1 && (str[0] == '-' || str[0] == '+' || str[0] == '.'), "C11 jdn symbol: the number scanner is consulted only for text that can be a number");
+  return nd_int() & 1;
+}
 int ps_child_stub(struct pretty *S, Janet x, int depth) { __CPROVER_assert(0, "C11 jdn symbol: a symbol has no children"); return 1; }
 /* the reader's interning call */
 uint8_t s_sym_text[8]; int32_t s_sym_len; int s_sym_calls; static struct { JanetStringHead h; uint8_t room[8]; } s_interned;
@@ -79,7 +85,12 @@ void h_jdn_symbol_alphabet(void) {
     PS(s_desc_calls == 1 && s_desc_type == x.type && s_desc_ptr == x.as.pointer, "accepted text is printed once, through janet_description_b");
   } else {
     PS(s_desc_calls == 0 && s_n == 0, "a refused symbol / keyword prints nothing");
-    PS(!(alpha && ascii && !(issym && digit0)), "plain ASCII text of the symbol alphabet (not starting with a digit, for symbols) is never refused");
+    /* no over-rejection: keywords always print; symbols at least when they start with a letter and are not a constant's name
+     * (text starting with a sign or a dot may scan as a number, a leading colon reads back as a keyword, the empty text as nothing:
+     * those are refused since /repo d944b13 - units pp.jdn.symbol.rt.*) */
+    int letter0 = len > 0 && ((copy[0] | 32) >= 'a' && (copy[0] | 32) <= 'z');
+    int is_nil = len == 3 && copy[0] == 'n' && copy[1] == 'i' && copy[2] == 'l';
+    PS(!(alpha && ascii && (issym ? (letter0 && !is_nil) : 1)), "plain ASCII text of the symbol alphabet is never refused (keywords; symbols starting with a letter other than the word nil)");
   }
   if (r == 0 && len == 3 && !ascii) REACH("jdn symbol: accepted multi-byte UTF-8 text"); if (r == 1 && alpha && !ascii) REACH("jdn symbol: refused for invalid UTF-8");
   if (r == 1 && !alpha) REACH("jdn symbol: refused for a character outside the alphabet"); if (r == 1 && issym && digit0 && alpha) REACH("jdn symbol: refused for a leading digit");
